@@ -61,7 +61,7 @@ def _drive(acc, n):
     for l in sorted(set(res["bad"]) | set(res["badsrc"])):
         c = cs[l - 1]
         acc.violations.append({"property": "C16", "kind": "repl-answer-differs-from-compiled-program" if l in res["bad"] else "repl-constant-differs-from-source-meaning",
-                               "defs": c["defs"], "expr": c["expr"], "args": c["args"], "repl": c["repl"], "compiled": c["compiled"],
+                               "defs": c["defs"], "expr": c["expr"], "split": c.get("split", False), "args": c["args"], "repl": c["repl"], "compiled": c["compiled"],
                                "residual_compiled": c["residual_compiled"], "envs": c["envs"]})
     os.remove(trace)
     os.remove(cases)
@@ -82,7 +82,7 @@ def run(tier, acc):
 def replay(path):
     rec = core.load_json(path)
     v = rec["violation"]
-    r = json.loads(core.run_vh(["job", json.dumps({"op": "repl", "defs": v["defs"], "expr": v["expr"]})]))
+    r = json.loads(core.run_vh(["job", json.dumps({"op": "repl", "defs": v["defs"], "expr": v["expr"], "split": v.get("split", False)})]))
     v2 = dict(v)
     v2["repl"] = r
     if "const" in r and "runs" in v["compiled"]:
